@@ -84,11 +84,8 @@ except that `errArray` skips nil errors -/
 theorem array_wrapper_length : ∀ w ∈ Gen.arrayWrappers, ∀ xs, (w.marshal xs).length ≤ xs.length ∧
     (w.name ≠ "zap.errArray" → (w.marshal xs).length = xs.length) := by
   unfold Gen.arrayWrappers
-  intro w hw xs
-  simp only [List.mem_cons, List.not_mem_nil, or_false] at hw
-  rcases hw with rfl | rfl | rfl | rfl | rfl | rfl | rfl | rfl | rfl | rfl | rfl | rfl | rfl | rfl | rfl | rfl | rfl | rfl |
-    rfl | rfl | rfl | rfl | rfl | rfl | rfl | rfl | rfl <;>
-    simp [List.length_filter_le]
+  per_row
+  all_goals (intro xs; simp [List.length_filter_le])
 
 /-- nil values of interface-typed parameters never make `AddTo` panic; a nil error adds nothing at all -/
 theorem nil_interface_safe : ∀ c ∈ Gen.ctors, c.NilSafe := by
